@@ -12,10 +12,11 @@ import json
 import os
 import subprocess
 import sys
+import collections
 import threading
 import time
 
-from .. import tables, gen, sched, env, structref
+from .. import tables, gen, sched, env, structref, er7ref
 
 ID = 'C19'
 LEVEL = 'exploration'
@@ -92,6 +93,18 @@ def corpus():
                 return [m.to_er7(), [str(e) for e in r.errors], [str(w) for w in r.warnings]]
             calls.append(('parse_message/%s/%d' % (v, level), pm))
 
+            # a message declaring its own escape character (a different one per version and level) whose text holds the
+            # escape characters of the other sets as plain data
+            esc = '$@*%!'[(i + level) % 5]
+            msg2 = 'MSH|^~%s&|A|B|C|D|20200101||%s|%d|P|%s\rEVN||20200101\rPID|1||%d||A\\B^C%sF%sD%sE%s!@*%%\rZZ1|x\\y%sT%s' % (
+                esc, m9, i, v, i, esc, esc, esc, esc, esc, esc)
+            msg2 = msg2.replace('!@*%', ''.join(c for c in '!@*%$' if c != esc))
+
+            def pe(msg2=msg2, level=level):
+                m = parser.parse_message(msg2, validation_level=level)
+                return [m.to_er7(), m.to_er7() == msg2]
+            calls.append(('parse_message_own_escape/%s/%d' % (v, level), pe))
+
             def ps(v=v, level=level, i=i):
                 s = parser.parse_segment('PID|1||12%d^^^X&1.2&ISO^MR~456||DOE^JOHN|||M' % i, version=v,
                                          validation_level=level)
@@ -112,7 +125,8 @@ def corpus():
                 return [m.to_er7(), [str(e) for e in m.validate(return_errors=True).errors]]
             calls.append(('build_message/%s/%d' % (v, level), bm))
             for dt, val in (('DT', '20200101'), ('DT', 'bad'), ('TM', '1200+0100'), ('NM', '12.5'), ('SI', '7'),
-                            ('ST', 'a|b\\H\\'), ('DTM', '202001011200'), ('TN', '5551234'), ('FT', 'x~y'), ('NM', 'zz')):
+                            ('ST', 'a|b\\H\\'), ('DTM', '202001011200'), ('TN', '5551234'), ('FT', 'x~y'), ('NM', 'zz'),
+                            ('ST', 'c\\d$e@f!g')):
                 def df(dt=dt, val=val, v=v, level=level):
                     o = datatype_factory(dt, val, v, level)
                     return [type(o).__name__, o.to_er7()]
@@ -195,29 +209,62 @@ def run_baton(spec, rec):
     by = dict(calls)
     labels = [l for l, _ in calls]
     traces = set()
+    vs = tables.versions()
+    new_family = [v for v in vs if er7ref.vkey(v) >= (2, 7)]
+    old_family = [v for v in vs if v not in new_family]
+    # versions alternate between the two families of base datatype modules (hl7apy/v2_7/base_datatypes.py serves 2.7+)
+    alternating = [x for pair in zip(new_family * 3, old_family) for x in pair]
     for p in range(spec['pairs']):
         a, b = rng.sample(labels, 2)
-        if p % 2 == 0:
+        if p % 3 == 0:
+            # a call with its own escape character against any call of the same family of versions: both go through the
+            # same datatype classes with different delimiters
+            va = alternating[(spec['part'] * spec['pairs'] + p // 3 + spec['seed']) % len(alternating)]
+            a = 'parse_message_own_escape/%s/%d' % (va, 1 + (p // 3 + spec['part']) % 2)
+            fam = new_family if va in new_family else old_family
+            b = rng.choice([l for l in labels if l.split('/')[1] in fam and l != a])
+            rec.count('pairs_same_family_other_delimiters')
+        elif p % 3 == 1:
             # same version, so that both threads touch the same per-version shared maps
             va = a.split('/')[1]
             same = [l for l in labels if l.split('/')[1] == va and l != a]
             b = rng.choice(same)
-        # count events with an empty plan
-        out, bt, hung = sched.run_pair(by[a], by[b], {})
+        # count events with an empty plan (the 'any' key keeps the LINE events of non-anchor code on)
+        out, bt, hung = sched.run_pair(by[a], by[b], {0: {'any': ()}})
         n0, n1, a0, a1 = bt.count[0], bt.count[1], bt.acount[0], bt.acount[1]
         rec.count('anchor_events_seen', a0 + a1)
         cap = spec.get('cap', 160)
-        ks0 = list(range(1, a0 + 1))
-        if len(ks0) > cap:      # every anchor event when there are few, else an even + seeded sample of them
-            ks0 = sorted(set(ks0[::max(1, len(ks0) // (cap // 2))] + rng.sample(ks0, cap // 2)))
-        ks1 = list(range(1, a1 + 1))
+
+        def by_location(seq):
+            occ = collections.OrderedDict()
+            for k, loc in enumerate(seq, 1):
+                occ.setdefault(loc, []).append(k)
+            return occ
+        occ0, occ1 = by_location(bt.aseq[0]), by_location(bt.aseq[1])
+        rec.count('distinct_anchor_locations_in_pairs', len(occ0) + len(occ1))
+        # thread 0 hands over at the first and at the last visit of every distinct anchor location (a memo is torn at its
+        # first write, a stale read-back shows at the last visit), plus a seeded sample of the visits in between
+        ks0 = set(o[0] for o in occ0.values()) | set(o[-1] for o in occ0.values())
+        rest = [k for k in range(1, a0 + 1) if k not in ks0]
+        ks0 = sorted(ks0 | set(rng.sample(rest, min(len(rest), cap // 4))))
+        ks1 = set(o[-1] for o in occ1.values())
         if len(ks1) > cap // 3:
-            ks1 = sorted(rng.sample(ks1, cap // 3))
+            ks1 = set(rng.sample(sorted(ks1), cap // 3))
+        rest = [k for k in range(1, a1 + 1) if k not in ks1]
+        ks1 = sorted(ks1 | set(rng.sample(rest, min(len(rest), cap // 8))))
         plans = [{0: {'anchor': {k}}} for k in ks0]
         plans += [{1: {'anchor': {k}}, 0: {'any': {1}}} for k in ks1]
+        # two switches: 0 stops at an anchor location, 1 runs into the same function and stops there, 0 finishes, 1 finishes
+        shared = [loc for loc in occ0 if any(l1[:2] == loc[:2] for l1 in occ1)]
+        for loc in rng.sample(shared, min(len(shared), cap // 6)):
+            k = rng.choice(occ0[loc])
+            same_fn = [l1 for l1 in occ1 if l1[:2] == loc[:2]]
+            j = rng.choice(occ1[rng.choice(same_fn)])
+            plans.append({0: {'anchor': {k}}, 1: {'anchor': {j}}})
+            rec.count('two_switch_schedules')
         plans += [{0: {'any': {rng.randrange(1, max(2, n0))}}, 1: {'any': {rng.randrange(1, max(2, n1))}}}
-                  for _ in range(12)]
-        rec.count('single_switch_schedules_all_anchor_events' if len(ks0) == a0 else 'single_switch_schedules_sampled')
+                  for _ in range(8)]
+        rec.count('single_switch_schedules_first_and_last_visit_of_every_location')
         for pl in plans:
             out, bt, hung = sched.run_pair(by[a], by[b], pl)
             switched = len(bt.trace) > 0
